@@ -154,8 +154,8 @@ def worker(case: Dict[str, Any]) -> CaseResult:
         cfg = write_case(root, sdl, queries, cfg_full)
         if case["idx"] % 4 == 3:
             # something was generated in this interpreter before: the same inputs with nothing configured
-            from ..genpkg import decoy_generations
-            stats["decoy_generations_before"] = decoy_generations(root, sdl, queries)
+            from ..genpkg import DECOY_KINDS, decoy_generations
+            stats["decoy_generations_before"] = decoy_generations(root, sdl, queries, kind=DECOY_KINDS[(case["idx"] // 4) % 4])
         with warnings.catch_warnings():
             warnings.simplefilter("ignore")
             gen = run_cli(root, "client", cfg)
